@@ -101,4 +101,14 @@ PROPS = {
         "level_text": "Lean theorem C20: for every finite sequence of read outcomes over the modelled error vocabulary and every cancellation point, the receiver model processes exactly the frames before its end, once each and in order, reports exactly the unknown failures and processing errors, retries transient ones silently and ends at the first broken-socket outcome or at cancellation (induction over the sequence, no length bound). The model is tied to receiver.go by running the real ReceivePackets on scripted readers/processors.",
         "level_note": "Trusted: Lean kernel; the vocabulary of 15 error values stands for all errors (an error outside it is classified by the same two Go functions but is not modelled); timing (5 ms sleep) not modelled.",
     },
+    "C13": {
+        "modules": ["SxVerif.Props.C13"],
+        "components": ["gen"],
+        "trusted_base": [
+            "modelled, not verified: bufio.Scanner line splitting (64 KiB limit) and the easyjson decoder of IPPort as a line classifier (badJson | tooLong | entry(ip?, port)); net.ParseIP as an abstract outcome; cidranger as list membership",
+        ],
+        "assumptions": ["one error per *reading* of the list: the address x ports mode re-reads the list once per port (see DESIGN.md C13)"],
+        "level_text": "Lean theorems C13_pairs/C13_addrs (generator output = per-line expectation of the lines handled, for every list of lines), C13_filter_stage/C13_cache_stage/C13_errors_survive (optional stages are per-request and pass errors through untouched, for every request list), C13_pipeline_* (the composition the commands build). Tied to the code by running the real generators, the real --exclude parser and the real ARP-cache stage on generated target files (gen component), with the Spec reference evaluated on the observed requests.",
+        "level_note": "Trusted: Lean kernel; the line classifier abstraction of easyjson/bufio (validated by the harness writing real JSONL text for every class, incl. textual variants); channel plumbing is M-conc's concern (a stage is its list function).",
+    },
 }
